@@ -28,7 +28,7 @@ fam('types_upd', depth=2, maxstack=4,
     alphabet=[('UPDATE', 1), ('UPDATE', 2), ('UPDATE', 3), ('UPDATE', 4), ('GET', 1), ('GET', 2), ('GET', 3), ('GET', 4), ('CAR',), ('CDR',), ('UNPAIR', 2), ('UNPAIR', 3), ('SWAP',),
               ('IF_NONE', (PUSH(STR, s('n')),), ()), ('IF_CONS', (DIP(1, DROP(1)),), (PUSH(STR, s('e')),)), ('SIZE',)])
 
-FAMS = ['types_upd', 'types_list', 'types_map', 'types_ctor', 'optlist', 'adt', 'dipstack', 'stack']
+FAMS = ['types_upd', 'types_list', 'types_map', 'types_ctor', 'optlist', 'adt', 'dipstack', 'stack', 'bigmap']
 
 
 def annotated_types(ctx, prop, fname, st):
@@ -52,6 +52,54 @@ def annotated_types(ctx, prop, fname, st):
     return bad
 
 
+def self_types(ctx):
+    """SELF / SELF %name :: contract <type of that entrypoint>.  The entrypoint table of every parameter type comes from MichEntry.tla (the C13 model):
+    a plain SELF is SELF %default, and %default is the branch of that name if the union has one, else the whole parameter."""
+    from . import C13
+    from .. import terms
+    from ..tlaparse import to_tla
+    from pytezos.context.impl import ExecutionContext
+    from pytezos.michelson.instructions.base import MichelsonInstruction
+    from pytezos.michelson.stack import MichelsonStack
+    C13.TYPE_ANNOTS[0] = False
+    gen = {'MichEntryMC': C13.MC % to_tla(C13.BASES)}
+    r = ctx.tlc('MichEntryMC', C13.CFG % (2, '"a", "b", "default"', '0'), name='self_types', gen=gen, timeout=900)
+    ctx.require_no_violation(r, 'self_types')
+    tabs = {v[2]: v[3] for v in r.printed if v[0] == 'OUT' and v[1] == 'list'}
+    if not tabs:
+        raise Exception('no entrypoint tables exported')
+    n = 0
+    for T in sorted(tabs, key=repr):
+        tab = tabs[T]
+        branches = {e[0]: e[2] for e in tab[:-1]}
+        if T[1]:
+            continue      # an annotated root: how the whole parameter is named is C13's matter
+        want = {None: branches.get('default', T)}
+        want.update(branches)
+        pctx = ExecutionContext(script={'code': [{'prim': 'parameter', 'args': [C13.ann_json(T)]}, {'prim': 'storage', 'args': [{'prim': 'unit'}]}, {'prim': 'code', 'args': [[]]}]},
+                                address='KT1BEqzn5Wx8uJrZNvuS9DVHmLvG9td3fDLi')
+        for name, et in sorted(want.items(), key=repr):
+            ins = {'prim': 'SELF'}
+            if name is not None:
+                ins['annots'] = ['%' + name]
+            stack = MichelsonStack()
+            n += 1
+            ctx.replayed += 1
+            ctx.count(('self', T, name), nontrivial='default' in branches or name is not None)
+            case = {'parameter': C13.michelson(T), 'self': name}
+            try:
+                MichelsonInstruction.match(ins).execute(stack, [], pctx)
+                got = terms.strip_annots(type(stack.items[0]).as_micheline_expr())
+            except Exception as e:  # noqa
+                ctx.mismatch('C02:SELF:%s:raises' % ('named' if name else 'plain'), 'parameter %s: SELF%s raised %r' % (C13.michelson(T), ' %' + name if name else '', e), case)
+                continue
+            exp = {'prim': 'contract', 'args': [terms.type_json(C13.plain(et))]}
+            if got != exp:
+                kind = 'plain-with-default-branch' if name is None and 'default' in branches else 'plain' if name is None else 'named'
+                ctx.mismatch('C02:SELF:%s:type' % kind, 'parameter %s: SELF%s leaves %s, the typing rule gives %s' % (C13.michelson(T), ' %' + name if name else '', got, exp), case)
+    ctx.extra['self_types'] = n
+
+
 def run(ctx):
     ctx.rule = ('same machinery as C01 restricted to the *type* of every stack slot: Leg A = TLC checks TypePreservation (dynamic types of the reference run = static '
                 'Ty, every value HasType its slot type, lambda bodies typed) on every reachable state; Leg B = the runtime type expression (annotations stripped) '
@@ -68,11 +116,15 @@ def run(ctx):
     from . import C17
     cf = dict(vmfam.FAMILIES['comb'])
     C01.run_families(ctx, 'C02', 'types_annot', {'comb': cf}, replay_fn=annotated_types)
+    self_types(ctx)
     ctx.exhaustive = True
     C01.leg_c(ctx, 'C02', C01.REPO_TESTS[:1] + C01.REPO_TESTS[2:3])
 
 
 def replay(ctx, rep):
+    if 'parameter' in rep['case']:
+        self_types(ctx)
+        return 1 if ctx.mismatches else 0
     return C01.replay(ctx, rep)
 
 
